@@ -411,6 +411,12 @@ def write_replay(prop, kind, what, d, extra=None):
 
 def write_evidence(prop, tier, seed, level, coverage, assumptions_, wall, violations):
     os.makedirs(EVIDENCE, exist_ok=True)
+    if coverage.get("discharged", 1) == 0:
+        # nothing discharged (broken proof / missing theorem file): say so without the
+        # proof-level keys, whose schema demands at least one discharged obligation
+        coverage = dict(coverage)
+        coverage["obligations_total"] = coverage.pop("obligations", 0)
+        coverage["discharged_total"] = coverage.pop("discharged", 0)
     ev = {
         "property_id": prop,
         "tier": tier,
